@@ -11,7 +11,7 @@ func init() {
 	generators["C26"] = genC26
 }
 
-func nospace(s string) string { return strings.Join(strings.Fields(s), "") }
+func nospaceFs(s string) string { return strings.Join(strings.Fields(s), "") }
 
 // C27: where UntarDirectory applies its symbolic-link checks.
 func genC27(g *gen) {
@@ -20,7 +20,7 @@ func genC27(g *gen) {
 	g.line("Local Open Scope string_scope.")
 	body := ""
 	if fd != nil {
-		body = nospace(src(fd.Body))
+		body = nospaceFs(src(fd.Body))
 	}
 	iCheck := strings.Index(body, "ensureNoSymlinks(destDir,targetPath,")
 	iSwitch := strings.Index(body, "switchheader.Typeflag{")
@@ -56,7 +56,7 @@ func genC27(g *gen) {
 	ens := findFunc(f, "", "ensureNoSymlinks")
 	eb := ""
 	if ens != nil {
-		eb = nospace(src(ens.Body))
+		eb = nospaceFs(src(ens.Body))
 	}
 	g.line("Definition gen_ensure_uses_lstat : bool := %s.", coqBool(strings.Contains(eb, "os.Lstat(") && !strings.Contains(eb, "os.Stat(")))
 	g.line("Definition gen_ensure_rejects_symlink : bool := %s.", coqBool(strings.Contains(eb, "os.ModeSymlink!=0{return")))
@@ -104,7 +104,7 @@ func genC26(g *gen) {
 	vp := findFunc(f, "StreamHandler", "validatePath")
 	b := ""
 	if vp != nil {
-		b = nospace(src(vp.Body))
+		b = nospaceFs(src(vp.Body))
 	}
 	// order of the lexical checks
 	idx := []int{strings.Index(b, "containsDangerousChars(path)"), strings.Index(b, "normalizePath(path)"), strings.Index(b, "filepath.IsAbs(normalizedPath)"),
@@ -120,7 +120,7 @@ func genC26(g *gen) {
 	st := findFunc(f, "StreamHandler", "validateSymlinkTarget")
 	sb := ""
 	if st != nil {
-		sb = nospace(src(st.Body))
+		sb = nospaceFs(src(st.Body))
 	}
 	g.line("Definition gen_symlink_check_only_final_component : bool := %s.",
 		coqBool(strings.Contains(sb, "os.Lstat(path)") && strings.Contains(sb, "info.Mode()&os.ModeSymlink==0{returnnil}") && strings.Contains(sb, "filepath.EvalSymlinks(path)") && strings.Contains(sb, "h.validatePath(target)")))
